@@ -5,7 +5,7 @@
    check runs against the implementation. *)
 From Coq Require Import ZArith QArith Qcanon List Reals Ranalysis1.
 From DV Require Import Base.Field Base.LinAlg Base.RInst Base.QcInst Model.BSplineBase Gen.BSpline Model.BSpline
-  Proofs.C14Weights Proofs.C14Ctrl Proofs.C14Place Proofs.C14Eval Proofs.C14Subdiv Proofs.C14SubdivND Proofs.C14Real.
+  Proofs.C14Weights Proofs.C14Ctrl Proofs.C14Place Proofs.C14Eval Proofs.C14Subdiv Proofs.C14SubdivND Proofs.C14SubdivDirect Proofs.C14Struct Proofs.C14Real.
 Import ListNotations.
 Local Open Scope fld_scope.
 
@@ -32,6 +32,15 @@ Proof.
   [exact (weights_are_basis K Kf Kc d t H) | exact (proj1 (weights_high_order K d t H))].
 Qed.
 Print Assumptions C14_weights_are_basis.
+
+(* every derivative mode: row o of the order-d kernel for stride s is the d-th derivative of the analytic basis at the
+   offset o / s -- so ev1 / ev2_at / ev3_at (= spl_f over these rows) are the tensor products of basis derivatives, i.e. the
+   analytic partial derivatives of the spline w.r.t. control point coordinates, for ALL orders d (0 beyond 3) *)
+Theorem C14_derivative_modes_analytic :
+  forall (K : fld), is_field K -> char0 K ->
+  forall d s o : nat, @wrow K d s o = basis4 d (zn o / zn s).
+Proof. exact derivative_modes_analytic. Qed.
+Print Assumptions C14_derivative_modes_analytic.
 
 (* cubic_bspline_value (the kernel of the transposed algorithm and its derivatives) is the same B on every piece *)
 Theorem C14_value_is_basis :
@@ -125,6 +134,25 @@ Theorem C14_default_algorithm_structure :
 Proof. exact mirtk1_pointwise. Qed.
 Print Assumptions C14_default_algorithm_structure.
 
+(*    (a') default algorithm, 2-D: a pass along x of every row, a pass along y of every column, crop at the end *)
+Theorem C14_default_algorithm_structure_2d :
+  forall (K : fld) (dx dy sx sy : nat) (c : list (list K)) (ny nx mx my : nat),
+  (length c = ny /\ forall y, (y < ny)%nat -> length (nth y c []) = nx) ->
+  (1 <= sx)%nat -> (1 <= sy)%nat -> (1 <= ny)%nat -> (1 <= nx)%nat ->
+  (1 <= mx)%nat -> (mx <= (nx - 3) * sx)%nat -> (my <= (ny - 3) * sy)%nat ->
+  eval_mirtk2 dx dy sx sy c mx my = ev2 dx dy sx sy c mx my.
+Proof. exact mirtk2_pointwise. Qed.
+Print Assumptions C14_default_algorithm_structure_2d.
+
+Theorem C14_default_algorithm_structure_3d :
+  forall (K : fld) (dx dy dz sx sy sz : nat) (c : list (list (list K))) (nz ny nx mx my mz : nat),
+  (length c = nz /\ forall k, (k < nz)%nat -> length (nth k c []) = ny /\ forall j, (j < ny)%nat -> length (nth j (nth k c []) []) = nx) ->
+  (1 <= sx)%nat -> (1 <= sy)%nat -> (1 <= sz)%nat -> (1 <= nz)%nat -> (1 <= ny)%nat -> (1 <= nx)%nat ->
+  (1 <= mx)%nat -> (mx <= (nx - 3) * sx)%nat -> (1 <= my)%nat -> (my <= (ny - 3) * sy)%nat -> (mz <= (nz - 3) * sz)%nat ->
+  eval_mirtk3 dx dy dz sx sy sz c mx my mz = ev3 dx dy dz sx sy sz c mx my mz.
+Proof. exact mirtk3_pointwise. Qed.
+Print Assumptions C14_default_algorithm_structure_3d.
+
 (*    (b) transposed convolution with the kernel B((i - r) / s), padding, crop [s, s + m) = the closed form,
           D = 1, 2, 3, every stride, every coefficient tensor, every output size the coefficients support *)
 Theorem C14_two_algorithms_agree_1d :
@@ -194,6 +222,47 @@ Theorem C14_subdivision_preserves :
   pow2 d * spl (gen_w d u) (subdiv1 c) (2 * q + 2) = spl (gen_w d ((1 + u) / (1 + 1))) c q.
 Proof. exact subdivision_preserves. Qed.
 Print Assumptions C14_subdivision_preserves.
+
+(* subdivide_cubic_bspline along any axis of a 2-D / 3-D coefficient tensor: every cell of the tensor-product spline (both
+   halves along the subdivided axis, any local coordinate u, any derivative order d along that axis, arbitrary weights --
+   hence any position and derivative order -- along the other axes) keeps its value *)
+Theorem C14_subdivision_preserves_2d :
+  forall (K : fld), is_field K -> char0 K ->
+  forall (d : nat) (w : list K) (c : list (list K)) (ny nx qo q : nat) (second : bool) (u : K),
+  (length c = ny /\ forall y, (y < ny)%nat -> length (nth y c []) = nx) -> (1 <= ny)%nat ->
+  ((qo + 3 < ny)%nat -> (q + 3 < nx)%nat ->
+     pow2 d * spl_f w (fun j => cellv d u (fun i => at2 (along_x2 (subdiv1 (K:=K)) c) j i) (half_Q second q)) qo
+     = spl_f w (fun j => cellv d (half_u second u) (fun i => at2 c j i) q) qo) /\
+  ((qo + 3 < nx)%nat -> (q + 3 < ny)%nat ->
+     pow2 d * cellv d u (fun j => spl_f w (fun i => at2 (along_y2 (subdiv1 (K:=K)) c) j i) qo) (half_Q second q)
+     = cellv d (half_u second u) (fun j => spl_f w (fun i => at2 c j i) qo) q).
+Proof.
+  intros K Kf Kc d w c ny nx qo q second u Hc H1. split;
+  [exact (subdivide2_x K Kf Kc d w c ny nx qo q second u Hc)|exact (subdivide2_y K Kf Kc d w c ny nx qo q second u Hc H1)].
+Qed.
+Print Assumptions C14_subdivision_preserves_2d.
+
+Theorem C14_subdivision_preserves_3d :
+  forall (K : fld), is_field K -> char0 K ->
+  forall (d : nat) (w1 w2 : list K) (c : list (list (list K))) (nz ny nx q1 q2 q : nat) (second : bool) (u : K),
+  (length c = nz /\ forall k, (k < nz)%nat -> length (nth k c []) = ny /\ forall j, (j < ny)%nat -> length (nth j (nth k c []) []) = nx) ->
+  (1 <= nz)%nat -> (1 <= ny)%nat -> (1 <= nx)%nat ->
+  ((q2 + 3 < nz)%nat -> (q1 + 3 < ny)%nat -> (q + 3 < nx)%nat ->
+     pow2 d * spl_f w2 (fun k => spl_f w1 (fun j => cellv d u (fun i => at3 (along_x3 (subdiv1 (K:=K)) c) k j i) (half_Q second q)) q1) q2
+     = spl_f w2 (fun k => spl_f w1 (fun j => cellv d (half_u second u) (fun i => at3 c k j i) q) q1) q2) /\
+  ((q2 + 3 < nz)%nat -> (q1 + 3 < nx)%nat -> (q + 3 < ny)%nat ->
+     pow2 d * spl_f w2 (fun k => cellv d u (fun j => spl_f w1 (fun i => at3 (along_y3 (subdiv1 (K:=K)) c) k j i) q1) (half_Q second q)) q2
+     = spl_f w2 (fun k => cellv d (half_u second u) (fun j => spl_f w1 (fun i => at3 c k j i) q1) q) q2) /\
+  ((q2 + 3 < ny)%nat -> (q1 + 3 < nx)%nat -> (q + 3 < nz)%nat ->
+     pow2 d * cellv d u (fun k => spl_f w2 (fun j => spl_f w1 (fun i => at3 (along_z3 (subdiv1 (K:=K)) c) k j i) q1) q2) (half_Q second q)
+     = cellv d (half_u second u) (fun k => spl_f w2 (fun j => spl_f w1 (fun i => at3 c k j i) q1) q2) q).
+Proof.
+  intros K Kf Kc d w1 w2 c nz ny nx q1 q2 q second u Hc Hz Hy Hx. split; [|split];
+  [exact (subdivide3_x K Kf Kc d w1 w2 c nz ny nx q2 q1 q second u Hc)
+  |exact (subdivide3_y K Kf Kc d w1 w2 c nz ny nx q2 q1 q second u Hc Hy)
+  |exact (subdivide3_z K Kf Kc d w1 w2 c nz ny nx q2 q1 q second u Hc Hz Hy Hx)].
+Qed.
+Print Assumptions C14_subdivision_preserves_3d.
 
 (* refining a free-form deformation's image grid (m -> 2 m - 1 samples, same stride): on the refined grid the
    transformation evaluates the old spline (= the old coefficients seen with twice the stride), in particular
